@@ -144,7 +144,15 @@ class EdgeRun(object):
                 reply.code = '250'
                 reply.message = '2.0.0 custom command done'
 
-        from engine.vloop import snapshot_reply_constants, restore_reply_constants
+            def XHELP(self, reply, arg, server):
+                # another application-defined command, answered with a 2xx code that is neither 221 nor 250
+                run.note('XHELP', arg.decode('latin-1') if arg else None)
+                reply.code = '214'
+                reply.message = '2.0.0 see the manual'
+
+        from engine.vloop import snapshot_reply_constants, restore_reply_constants, reset_mutable_defaults
+        from slimta.envelope import Envelope
+        reset_mutable_defaults(Envelope, SmtpSession, Server, SmtpEdge)     # executions must not inherit each other's state
         snap = snapshot_reply_constants()
         saved = (edge_smtp.Server, edge_smtp.PtrLookup)
         edge_smtp.Server = CapServer
